@@ -29,6 +29,7 @@ import (
 	"time"
 
 	"github.com/uber-go/tally/v4/internal/identity"
+	"github.com/uber-go/tally/v4/internal/verifhook"
 )
 
 var (
@@ -74,12 +75,15 @@ func (c *counter) Inc(v int64) {
 }
 
 func (c *counter) value() int64 {
+	verifhook.Yield("counter.value:0")
 	curr := atomic.LoadInt64(&c.curr)
 
+	verifhook.Yield("counter.value:1")
 	prev := atomic.LoadInt64(&c.prev)
 	if prev == curr {
 		return 0
 	}
+	verifhook.Yield("counter.value:2")
 	atomic.StoreInt64(&c.prev, curr)
 	return curr - prev
 }
@@ -90,6 +94,7 @@ func (c *counter) report(name string, tags map[string]string, r StatsReporter) {
 		return
 	}
 
+	verifhook.Yield("counter.deliver")
 	r.ReportCounter(name, tags, delta)
 }
 
@@ -99,6 +104,7 @@ func (c *counter) cachedReport() {
 		return
 	}
 
+	verifhook.Yield("counter.deliver")
 	c.cachedCount.ReportCount(delta)
 }
 
@@ -117,7 +123,9 @@ func newGauge(cachedGauge CachedGauge) *gauge {
 }
 
 func (g *gauge) Update(v float64) {
+	verifhook.Yield("gauge.update:0")
 	atomic.StoreUint64(&g.curr, math.Float64bits(v))
+	verifhook.Yield("gauge.update:1")
 	atomic.StoreUint64(&g.updated, 1)
 }
 
@@ -126,13 +134,17 @@ func (g *gauge) value() float64 {
 }
 
 func (g *gauge) report(name string, tags map[string]string, r StatsReporter) {
+	verifhook.Yield("gauge.report:0")
 	if atomic.SwapUint64(&g.updated, 0) == 1 {
+		verifhook.Yield("gauge.report:1")
 		r.ReportGauge(name, tags, g.value())
 	}
 }
 
 func (g *gauge) cachedReport() {
+	verifhook.Yield("gauge.report:0")
 	if atomic.SwapUint64(&g.updated, 0) == 1 {
+		verifhook.Yield("gauge.report:1")
 		g.cachedGauge.ReportGauge(g.value())
 	}
 }
@@ -325,6 +337,7 @@ func (h *histogram) report(name string, tags map[string]string, r StatsReporter)
 			continue
 		}
 
+		verifhook.Yield("histogram.deliver")
 		switch h.htype {
 		case valueHistogramType:
 			r.ReportHistogramValueSamples(
@@ -355,6 +368,7 @@ func (h *histogram) cachedReport() {
 			continue
 		}
 
+		verifhook.Yield("histogram.deliver")
 		switch h.htype {
 		case valueHistogramType:
 			h.samples[i].cachedBucket.ReportSamples(samples)
